@@ -758,26 +758,28 @@ def translate_all(ctx) -> str:
 
 
 def cs_kernels(C: Unit, win: str) -> str:
-    """Cohen-Sutherland: bit constants, accept/reject/pick tests and the clipped point of one loop iteration"""
+    """Cohen-Sutherland: bit constants, accept/reject/pick tests, the clipped point and the handled bit of one loop iteration,
+    the masking of already handled outcode bits"""
     fn = find_func(C.mod, "CohenSutherlandLineClipping2d.clip_line")
     loop = next(n for n in ast.walk(fn) if isinstance(n, ast.While))
     if ast.unparse(loop.test) != "True":
         raise TErr("clip_line: `while True` expected")
     body = loop.body
-    # shape: if accept: return ..; if reject: return ..; code = ..; if/elif chain; if code == code0: ... else: ...
-    if not (len(body) == 5 and isinstance(body[0], ast.If) and isinstance(body[1], ast.If) and isinstance(body[2], ast.Assign)
-            and isinstance(body[3], ast.If) and isinstance(body[4], ast.If)):
+    # shape: if accept: return ..; if reject: return ..; code = ..; bit = 0; if/elif chain; if code == code0: ... else: ...
+    if not (len(body) == 6 and isinstance(body[0], ast.If) and isinstance(body[1], ast.If) and isinstance(body[2], ast.Assign)
+            and ast.unparse(body[3]) == "bit = 0" and isinstance(body[4], ast.If) and isinstance(body[5], ast.If)):
         raise TErr("clip_line: unexpected loop body shape")
     acc_ret, rej_ret = ast.unparse(body[0].body[-1]), ast.unparse(body[1].body[-1])
     if acc_ret.replace("(", "").replace(")", "") != "return Vec2x0, y0, Vec2x1, y1" or rej_ret != "return tuple()":
         raise TErr(f"clip_line: accept/reject returns changed: {acc_ret!r} {rej_ret!r}")
-    upd = ast.unparse(body[4])
-    want = "if code == code0:\n    x0 = x\n    y0 = y\n    code0 = self.encode(x0, y0)\nelse:\n    x1 = x\n    y1 = y\n    code1 = self.encode(x1, y1)"
-    if upd != want:
-        raise TErr("clip_line: endpoint update changed: " + upd)
-    pre = [s for s in fn.body if isinstance(s, ast.Assign)]
-    pre_txt = [ast.unparse(s) for s in pre]
-    if pre_txt != ["x0, y0 = p0", "x1, y1 = p1", "code0 = self.encode(x0, y0)", "code1 = self.encode(x1, y1)", "x = x0", "y = y0"]:
+    upd = body[5]
+    shape = lambda e: (f"if code == code0:\n    x0 = x\n    y0 = y\n    done0 |= bit\n    code0 = {e('0')}\n"
+                       f"else:\n    x1 = x\n    y1 = y\n    done1 |= bit\n    code1 = {e('1')}")
+    if ast.unparse(upd) != shape(lambda k: f"self.encode(x{k}, y{k}) & ~done{k}"):
+        raise TErr("clip_line: endpoint update changed: " + ast.unparse(upd))
+    pre_txt = [ast.unparse(s_) for s_ in fn.body if isinstance(s_, ast.Assign)]
+    if pre_txt != ["x0, y0 = p0", "x1, y1 = p1", "code0 = self.encode(x0, y0)", "code1 = self.encode(x1, y1)", "x = x0", "y = y0",
+                   "done0 = 0", "done1 = 0"]:
         raise TErr("clip_line: prologue changed: " + repr(pre_txt))
     bits = {k: C.consts[k] for k in ("LEFT", "RIGHT", "BOTTOM", "TOP")}
     params = parse_params("code0:nat code1:nat")
@@ -786,16 +788,25 @@ def cs_kernels(C: Unit, win: str) -> str:
     reject = sx.tobool(sx.ex(body[1].test, {}))
     pick = sx.ex(body[2].value, {})
     p2 = parse_params("code:nat x y x0 y0 x1 y1 " + win)
-    sx2 = C.sym(p2, nat_mode=False)
+    sx2 = C.sym(p2, nat_mode=True)
     sx2.roots = {p[0] for p, _ in p2} - {"x", "y"}
     sx2.consts = {}
     natc = {k: ("nat", str(v)) for k, v in bits.items()}
-    env0 = {"x": ("rat", "x"), "y": ("rat", "y"), **natc}
-    r = sx2.run([body[3]], env0)
+    env0 = {"x": ("rat", "x"), "y": ("rat", "y"), "bit": ("nat", "0"), **natc}
+    r = sx2.run([body[4]], env0)
     if r[0] != "env":
         raise TErr("clip_line: if-chain returns")
-    nx, ny = r[1]["x"], r[1]["y"]
+    nx, ny, nb = r[1]["x"], r[1]["y"], r[1]["bit"]
     ps2 = " ".join(f"({flat(p)} : {LEAN_TYPES[t]})" for p, t in p2)
+    # code0 = self.encode(x0, y0) & ~done0   and   done0 |= bit
+    sx3 = C.sym(parse_params("enc:nat done:nat bit:nat"), nat_mode=True)
+    mexpr = upd.body[3].value
+    if not (isinstance(mexpr, ast.BinOp) and isinstance(mexpr.op, ast.BitAnd) and isinstance(mexpr.right, ast.UnaryOp)
+            and isinstance(mexpr.right.op, ast.Invert) and ast.unparse(mexpr.right.operand) == "done0"):
+        raise TErr("clip_line: masking expression changed")
+    # for natural numbers  a & ~d  =  a xor (a & d)
+    mask_txt = "(enc ^^^ (enc &&& done))"
+    done_v = sx3.ex(ast.BinOp(ast.Name("done"), upd.body[2].op, ast.Name("bit")), {})
     return (
         "".join(f"def cs{k.capitalize()} : Nat := {v}\n" for k, v in bits.items())
         + f"\ndef csAccept (code0 code1 : Nat) : Bool :=\n  {accept}\n"
@@ -803,6 +814,9 @@ def cs_kernels(C: Unit, win: str) -> str:
         + f"\ndef csPick (code0 code1 : Nat) : Nat :=\n  {pick[1]}\n"
         + f"\ndef csClipX {ps2} : Rat :=\n  {nx[1]}\n"
         + f"\ndef csClipY {ps2} : Rat :=\n  {ny[1]}\n"
+        + f"\n/-- `bit`: the outcode bit handled by this iteration -/\ndef csClipBit (code : Nat) : Nat :=\n  {nb[1]}\n"
+        + f"\n/-- `self.encode(x, y) & ~done` on natural numbers -/\ndef csMask (enc done : Nat) : Nat :=\n  {mask_txt}\n"
+        + f"\n/-- `done |= bit` -/\ndef csDone (done bit : Nat) : Nat :=\n  {done_v[1]}\n"
     )
 
 
@@ -815,7 +829,6 @@ SOURCES = [
     "src/ezdxf/math/clipping.py",
     "src/ezdxf/math/construct2d.py",
 ]
-
 
 HAND_MODELLED = {
     "src/ezdxf/math/_mapbox_earcut.py": ["earcut", "linked_list", "eliminate_holes", "eliminate_hole", "filter_points", "earcut_linked",
@@ -875,6 +888,7 @@ OPEN = [
     "completion of earcut for every simple polygon (two-ears theorem) is not proved: earcut_conserves assumes the run is complete",
     "non-overlap of the earcut triangles: oracle only (exact test)",
     "cs_reject_sound_partial: proved for the reject test on the input end points only",
+    "cs_accept_inside / cs_accept_on_segment / cs_terminates_proper_window assume a proper window (x_min <= x_max, y_min <= y_max); cs_terminates (fuel 9) holds for every window",
     "hull_upper_left_turns_partial: junction turn, persistence of the lower chain, closing turn and hull_contains_all are not proved",
     "Sutherland-Hodgman: exactness of the clipped area (result = intersection) is oracle only; containment is proved",
 ]
@@ -1654,17 +1668,6 @@ def check_triangulation(ext, holes, tris, pts_all):
     return None
 
 
-def index_collision(ext, holes) -> bool:
-    """linked_list() gives a ring whose winding it reverses the indices start+1..start+n: its last vertex then shares `Node.i`
-    with the first vertex of the next ring when that one is not reversed (known finding C19-F4)"""
-    rings = [(ext, True)] + [(h, False) for h in holes if len(h) > 0]
-    rev = []
-    for pts, ccw in rings:
-        s = -area2(pts)  # signed_area() of the code: clockwise positive
-        rev.append(not (ccw is (s < 0)))
-    return any(rev[k] and not rev[k + 1] for k in range(len(rings) - 1))
-
-
 def oracle_triangulation(ctx):
     PY, CY, _, _ = impls()
     from ezdxf.math import Vec2
@@ -1679,13 +1682,12 @@ def oracle_triangulation(ctx):
             ctx.count("O1 triangulation", (name, tuple(ext), tuple(map(tuple, holes))), len(tris) > 1)
             why = check_triangulation(ext, holes, tris, pts_all)
             if why:
-                cls = "index-collision" if index_collision(ext, holes) else "other"
-                ctx.fail(f"earcut/{cls}/{kind}/{name}/{pl(ext)}|{';'.join(pl(h) for h in holes)}"[:300],
+                ctx.fail(f"earcut/{kind}/{name}/{pl(ext)}|{';'.join(pl(h) for h in holes)}"[:300],
                          f"{name} earcut of {kind} polygon {ext} holes {holes}: {why}; triangles {tris}",
                          {"op": "earcut", "impl": name, "ext": [list(map(str, p)) for p in ext],
                           "holes": [[list(map(str, p)) for p in h] for h in holes]})
 
-    # corpus: the input on which C19-F4 was found
+    # corpus: the input on which the linked_list index off-by-one (fixed by 774525a2f) produced overlapping triangles
     run("ortho", [(18, 15), (12, 15), (6, 15), (0, 15), (0, 0), (24, 0), (24, 21), (18, 21)],
         [[(14, 8), (20, 11), (17, 14), (14, 11)], [(9, 6), (10, 6), (10, 5), (9, 5)]])
     for n in range(3, ctx.n(6, 7) + 1):
@@ -1851,7 +1853,10 @@ def oracle_clipping(ctx):
                 if bad:
                     ctx.fail(key, f"{name}({w}).clip_line({a}, {b}) = {res}: {bad}", rep)
     # Cohen-Sutherland with arbitrary doubles through / near the window corners: must return
-    known = [((0.0, 0.0), (0.3, 0.9), (-1.0, 0.0), (1.6, 1.8))]
+    # corpus: lines on which clip_line did not return before fix 435c9c75f
+    known = [((0.0, 0.0), (0.3, 0.9), (-1.0, 0.0), (1.6, 1.8)),
+             ((-1.8235708280514515, -2.0836537051291737), (-1.3195868047377943, 1.5929110349303293),
+              (-12.581545355849991, -5.253434649144358), (8.860937774076618, 7.781833698377621))]
     for k in range(ctx.n(60000, 400000)):
         if k < len(known):
             lo, hi, a, b = known[k]
